@@ -8,6 +8,33 @@ PY = "/venv/bin/python"
 
 # property -> (level, technique, text, note, design_ref)
 CHECKS = {
+    "C01": (
+        "model_checking",
+        "explicit-state BFS over real CountMinLinear objects (all add/add_ngram/merge/save+load "
+        "histories to a depth bound over a probed colliding alphabet) against a reference model",
+        "All histories up to the stated depth of add / add_ngram / merge / save+load events on 2-4 real "
+        "sketches of widths 1-4 over a 3-key alphabet chosen by probing for shared counters, with "
+        "multiplicities adjacent to and beyond 2^32-1; in every reached state every key's estimate is "
+        "compared with the lower bound min(true,2^32-1) and the per-row collision upper bound. Verdict "
+        "is 'no violating history within the depth bound over this alphabet', not a proof for all keys.",
+        "Trusted: reference model M2 (true counts; collision structure read off the real sketch by "
+        "probing); the bound-theorems in vf/models/cm.py. Depth-bounded (search does not close).",
+        "DESIGN.md 4 C01",
+    ),
+    "C02": (
+        "model_checking",
+        "explicit-state BFS to fixpoint of the closed system of 2-3 real HyperLogLog sketches over a "
+        "crafted key alphabet, plus exhaustive rank sweep through the public API",
+        "The reachable state space of S real sketches over a crafted alphabet (adjacent/equal ranks on "
+        "one register, maximum rank, empty key) under every entry point and every merge (incl. self "
+        "and copy) is explored to a fixpoint; in every reachable state the registers equal the "
+        "max-rank-over-key-set model byte for byte and query() equals a fresh sketch's. This subsumes "
+        "all orders, duplications, batchings, partitions and merge trees over the alphabet. Every rank "
+        "of every precision is additionally driven through add().",
+        "Trusted: reference hash M1 + register model M3. Alphabet-bounded (5-6 keys); seeds/precisions "
+        "from a grid.",
+        "DESIGN.md 4 C02",
+    ),
     "C11": (
         "model_checking",
         "exhaustive enumeration of a finite input domain (all byte values x positions x lengths, "
